@@ -716,13 +716,16 @@ def enumerate_histories(ctx: Ctx):
 def run(ctx: Ctx) -> Outcome:
     out = Outcome()
     rng = random.Random(ctx.seed)
-    cfg, res, views = enumerate_family(ctx)
+    with ThreadPoolExecutor(max_workers=2) as ex:          # the two TLC enumerations are independent
+        fut_h = ex.submit(enumerate_histories, ctx)
+        cfg, res, views = enumerate_family(ctx)
+        hcfg, hres, hcases = fut_h.result()
     for inv in res.violated:
         out.violations.append(Violation("C20:spec:" + inv, "design invariant %s violated in GraphQL.tla" % inv,
                                         {"kind": "spec", "invariant": inv, "trace": res.counterexample[:60]}))
     loaders = ["sdl", "json"]
     cfgs = CFGS_QUICK if ctx.quick else CFGS_THOROUGH
-    n = 8 if ctx.quick else 12
+    n = 6 if ctx.quick else 12
     items = []
     for s, view in enumerate(views):
         for li, loader in enumerate(loaders):
@@ -742,7 +745,6 @@ def run(ctx: Ctx) -> Outcome:
     t_draw = time.time() - t1
     m = evaluate(ctx, out, views, results)
     # history dimension: TLC-enumerated configure / register / draw histories, each replayed on ONE schema object
-    hcfg, hres, hcases = enumerate_histories(ctx)
     for inv in hres.violated:
         out.violations.append(Violation("C20:spec:" + inv, "design invariant %s violated in GraphQLHistory.tla" % inv,
                                         {"kind": "spec", "invariant": inv, "trace": hres.counterexample[:60]}))
